@@ -538,7 +538,17 @@ func (m *Monitors) checkTasks(prev *vh.Snapshot, bi *BatchInfo, next *vh.Snapsho
 					m.violate("C07", "row:claim-not-as-requested", fmt.Sprintf("claim request %s (in flight from tick %d) produced row %s at tick %d", o.Req, o.CallTick, t1, t))
 				}
 			}
-			m.guar[id] = t1.ExpiresAt
+			// the lease the holder can rely on: what the claim itself wrote, extended by a heartbeat of the same batch
+			// only if that heartbeat is a timely one
+			g := u.ExpiresAt
+			for _, d := range cmds {
+				if d.cmd.Kind == t_aio.HeartbeatTasks && d.pos > c.pos && t1.ProcessId != nil && d.cmd.HeartbeatTasks.ProcessId == *t1.ProcessId {
+					if h := d.cmd.HeartbeatTasks.Time; h < g && t < g {
+						g = h + t1.Ttl
+					}
+				}
+			}
+			m.guar[id] = g
 			m.region("claim")
 		case t0.State == 4 && t1.State == 4:
 			// heartbeat: only expiresAt may change
@@ -653,7 +663,18 @@ func (m *Monitors) checkTasks(prev *vh.Snapshot, bi *BatchInfo, next *vh.Snapsho
 						hb = true
 					}
 				}
-				m.guar[id] = t1.ExpiresAt
+				g := t1.ExpiresAt
+				if t1.CreatedOn != nil && hb {
+					g = *t1.CreatedOn + t1.Ttl
+					for _, c := range cmds {
+						if c.cmd.Kind == t_aio.HeartbeatTasks && t1.ProcessId != nil && c.cmd.HeartbeatTasks.ProcessId == *t1.ProcessId {
+							if h := c.cmd.HeartbeatTasks.Time; h < g && t < g {
+								g = h + t1.Ttl
+							}
+						}
+					}
+				}
+				m.guar[id] = g
 				if t1.ProcessId == nil || t1.CreatedOn == nil || (t1.ExpiresAt != *t1.CreatedOn+t1.Ttl && !hb) {
 					m.violate("C07", "row:born-claimed-fields", fmt.Sprintf("task born claimed with inconsistent lease: %s", t1))
 				}
